@@ -231,6 +231,17 @@ def _model_pair(op, a, b, mode, tzm):
     if ta == 'anyURI' and tb == 'untypedAtomic' and b[1] != ' '.join(b[1].split()):
         return C.value_compare(op, ['string', a[1]], ['string', b[1]], mode, tzm), 'anyURI-left-untyped-not-collapsed'
     r = C._general_pair(op, a, b, mode, tzm)
+    temporal = C.DATETIMES + C.GREGORIAN
+    if tzm is not None and ((ta == 'untypedAtomic' and tb in temporal) or (tb == 'untypedAtomic' and ta in temporal)):
+        # the untypedAtomic operand is cast to the date/time type only inside the comparison, after the implicit
+        # timezone has been applied: the pair is compared with timezone-less values taken as UTC
+        a2, b2 = ([tb, a[1]], b) if ta == 'untypedAtomic' else (a, [ta, b[1]])
+        try:
+            r0 = C.value_compare(op, a2, b2, mode, 0) if _temporal_mixed([a2, b2]) else r
+        except C.CastError:
+            r0 = r
+        if r0 != r:
+            return r0, 'implicit-timezone-ignored-untyped'
     if r == ('error', 'XPTY0004') and op in ('eq', 'ne'):
         return ('bool', op == 'ne'), 'missing-XPTY0004'
     m = _as_double_compare(op, a, b)
